@@ -1270,6 +1270,33 @@ func (ev *evalCtx) call(x *ast.CallExpr, want types.Type) (string, types.Type, e
 			return "", nil, err
 		}
 		return ev.toMath(a, t), mathT, nil
+	case "apply":
+		// apply(f, args...): result of calling the pure function value f (uses purefuncs)
+		if len(x.Args) < 1 {
+			return "", nil, fmt.Errorf("apply needs a function value")
+		}
+		f, ft, err := ev.expr(x.Args[0], nil)
+		if err != nil {
+			return "", nil, err
+		}
+		sig, ok := ft.Underlying().(*types.Signature)
+		if !ok || sig.Results().Len() != 1 || sig.Params().Len() != len(x.Args)-1 {
+			return "", nil, fmt.Errorf("apply: %s is not a function value with %d parameters and one result", ft, len(x.Args)-1)
+		}
+		terms := []string{f}
+		var sorts []string
+		for i, a := range x.Args[1:] {
+			pt := sig.Params().At(i).Type()
+			t, _, err := ev.expr(a, pt)
+			if err != nil {
+				return "", nil, err
+			}
+			terms = append(terms, t)
+			sorts = append(sorts, ev.c.te.sortOf(pt))
+		}
+		rt := sig.Results().At(0).Type()
+		fn := ev.c.te.applyFn(sorts, ev.c.te.sortOf(rt))
+		return fmt.Sprintf("(%s %s)", fn, strings.Join(terms, " ")), rt, nil
 	case "nonnil":
 		if err := argc(1); err != nil {
 			return "", nil, err
